@@ -41,6 +41,7 @@ def sweep(kind, ids, jobs=8):
     """kind = 'seeded' (expect exit 1) or 'refactors' (expect exit 0); runs in parallel on scratch copies."""
     from concurrent.futures import ThreadPoolExecutor
     items = []
+    declared = {}    # refactors the check declares it cannot read (section-confined exit 2, never a violation)
     outside = {}     # seeds judged to lie outside what the property statement quantifies over: not claimed, expected exit 0 + a note
     for i in ids:
         d = os.path.join(VERIF, kind, i)
@@ -50,6 +51,8 @@ def sweep(kind, ids, jobs=8):
             items.append((i, d, m["property"]))
             if m.get("outside_statement"):
                 outside[i] = m["outside_statement"]
+            if m.get("declared_limitation"):
+                declared[i] = m["declared_limitation"]
     def one(it):
         i, d, prop = it
         rc, out = check_with_patch(os.path.join(d, "patch.diff"), prop)
@@ -72,6 +75,10 @@ def sweep(kind, ids, jobs=8):
             else:
                 v = {0: "silent", 1: "FALSE-ALARM", 2: "analysis-error"}.get(rc, f"exit {rc}")
                 ok = rc == 0
+                if i in declared:
+                    rec[i]["declared_limitation"] = declared[i]
+                    if rc == 2:
+                        v, ok = "exit 2 (declared limitation)", True
             good += ok; bad += (not ok)
             if not ok or "-v" in sys.argv:
                 print(f"{i}: {prop}:{v} " + " ;; ".join(pairs[:2])[:300] + (" " + errs[0][:200] if errs else ""))
